@@ -81,7 +81,7 @@ func cmdFunc(args []string) {
 			fmt.Fprintln(os.Stderr, "no contract", k)
 			os.Exit(2)
 		}
-		if c.Abstract || c.Trusted {
+		if c.Abstract || c.Trusted || (c.Inline && len(keys) > 1) {
 			continue
 		}
 		fn := w.findFunc(rel, k)
